@@ -191,16 +191,19 @@ fn drive<C: CongestionController>(mut cc: C, kind: &str, mss0: u16, steps: &[Ste
             if mb != bif as u64 && o.mismatch.is_none() {
                 o.mismatch = Some(format!("step {i} {:?}: bytes in flight {bif}, machine {mb}", st.op));
             }
+            // the window is a float inside the controller and reported truncated: a datagram-size change scales the hidden
+            // fraction by up to 9000/1200
+            let tol: i64 = if format!("{:?}", st.op).starts_with("Mtu") { 12 } else { 3 };
             if insync {
                 if st.det {
                     o.synced_steps += 1;
-                    if (mc as i64 - cwnd as i64).abs() > 3 && o.mismatch.is_none() {
+                    if (mc as i64 - cwnd as i64).abs() > tol && o.mismatch.is_none() {
                         o.mismatch = Some(format!("step {i} {:?}: window {before} -> {cwnd}, machine {mc}", st.op));
                     }
                     if mreq != req && o.mismatch.is_none() {
                         o.mismatch = Some(format!("step {i} {:?}: requires_fast_retransmission {req}, machine {mreq}", st.op));
                     }
-                } else if (mc as i64 - cwnd as i64).abs() > 3 {
+                } else if (mc as i64 - cwnd as i64).abs() > tol {
                     insync = false;
                 }
             }
